@@ -540,7 +540,8 @@ fn generate(rng: &mut Rng, thorough: bool) -> Gen {
             let t1 = vec![Op::GetIns(kr, true, 31), Op::Unpin(kr), Op::GetIns(kn, true, 41), Op::Read(kr), Op::Unpin(kn)];
             fam.push((Cfg { total, c0, o }, vec![t0, t1]));
         }
-        for (cfg, progs) in fam {
+        for (fi, (cfg, progs)) in fam.into_iter().enumerate() {
+            let deep = thorough && fi < 2;      // the full ranges on the plain 128-page cache, the sampled ones elsewhere
             let keys = keys_of(&progs);
             // length of the prefill in coarse steps: thread 0 alone until its (2 * cap)th operation boundary
             let npre_ops = progs[0].iter().take_while(|o| !matches!(o, Op::GetIns(k, _, v) if *v == 30 && *k != K0)).count();
@@ -551,7 +552,7 @@ fn generate(rng: &mut Rng, thorough: bool) -> Gen {
                 if st.out == StepOutcome::Reached(900) { seen += 1; if seen == npre_ops { pre_steps = i + 1; break; } }
             }
             if pre_steps == 0 { continue; }
-            let (ab, cs, ds): (Vec<usize>, Vec<usize>, Vec<usize>) = if thorough {
+            let (ab, cs, ds): (Vec<usize>, Vec<usize>, Vec<usize>) = if deep {
                 (vec![0, 1, 2, 3], vec![0, 1, 2, 3, 4, 5, 6, 7, 8, 9], vec![0, 1, 2, 6, 7, 8, 9, 12])
             } else {
                 (vec![0, 1, 2], vec![0, 5, 6, 7, 9], vec![0, 1, 8])
